@@ -1,6 +1,7 @@
 package main
 
 import (
+	"context"
 	"fmt"
 	"maps"
 	"os"
@@ -68,6 +69,7 @@ L:
 	fmt.Println(f == nil, err != nil)
 	timers()
 	racy()
+	contexts()
 	if len(os.Args) > 1 {
 		os.Exit(3)
 	}
@@ -226,4 +228,34 @@ func racy() {
 	} else {
 		fmt.Println("racy lost-updates")
 	}
+}
+
+func slowWork(ctx context.Context, d time.Duration) error {
+	t := time.NewTimer(d)
+	defer t.Stop()
+	select {
+	case <-t.C:
+		return nil
+	case <-ctx.Done():
+		return ctx.Err()
+	}
+}
+
+// contexts: deadlines on the simulated clock, cancellation reaching children
+func contexts() {
+	ctx, cancel := context.WithTimeout(context.Background(), 3*time.Second)
+	defer cancel()
+	fmt.Println("ctx-fast", slowWork(ctx, time.Second))
+	fmt.Println("ctx-slow", slowWork(ctx, 10*time.Second))
+	parent, stop := context.WithCancel(context.Background())
+	child, stop2 := context.WithTimeout(parent, time.Hour)
+	defer stop2()
+	res := make(chan error)
+	go func() { res <- slowWork(child, 30*time.Minute) }()
+	go func() { time.Sleep(time.Minute); stop() }()
+	fmt.Println("ctx-cancel", <-res, child.Err(), parent.Err())
+	done := child.Done()
+	<-done
+	_, has := child.Deadline()
+	fmt.Println("ctx-done", has)
 }
